@@ -1702,3 +1702,135 @@ func lemmaMDPieceInert(s string, k int) bool {
 //@   loop 1
 //@     invariant 0 <= last && last <= i && i <= len(s) && entry(i) <= i
 //@     decreases len(s) - i
+
+// ---------------------------------------------------------------------------
+// C05: the register file. Registers of type t are addressed as
+// regs[t][fp[t]+r] with 1 <= r <= fn.NumReg[t] (registers.go), so while a
+// function runs every such index must be inside the register file:
+//
+//	st[t] == len(regs[t])   and   fp[t] + NumReg(fn)[t] < st[t].
+//
+// The call instructions move the frame pointers by the stack shift of the
+// calling instruction and switch to the callee; their prologue must grow the
+// register file whenever the callee's highest register would fall outside it.
+// ---------------------------------------------------------------------------
+
+func specRegsOK(vm *VM, fn *Function) bool {
+	return fn != nil &&
+		int(vm.st[0]) == len(vm.regs.int) && int(vm.st[1]) == len(vm.regs.float) &&
+		int(vm.st[2]) == len(vm.regs.string) && int(vm.st[3]) == len(vm.regs.general) &&
+		len(vm.regs.int) >= 512 && len(vm.regs.float) >= 512 && len(vm.regs.string) >= 512 && len(vm.regs.general) >= 512 &&
+		fn.NumReg[0] >= 0 && fn.NumReg[1] >= 0 && fn.NumReg[2] >= 0 && fn.NumReg[3] >= 0 &&
+		int(vm.fp[0])+int(fn.NumReg[0]) < len(vm.regs.int) && int(vm.fp[1])+int(fn.NumReg[1]) < len(vm.regs.float) &&
+		int(vm.fp[2])+int(fn.NumReg[2]) < len(vm.regs.string) && int(vm.fp[3])+int(fn.NumReg[3]) < len(vm.regs.general)
+}
+
+// The instruction that follows a call carries the stack shift in its four
+// operand bytes; the emitter never produces a negative shift.
+func specShiftOK(in Instruction) bool { return in.Op >= 0 && in.A >= 0 && in.B >= 0 && in.C >= 0 }
+
+//@ func (*VM).moreIntStack
+//@   props C05
+//@   requires vm != nil && len(vm.regs.int) >= 512 && len(vm.regs.int) <= 1<<30
+//@   ensures len(vm.regs.int) == 2*old(len(vm.regs.int)) && int(vm.st[0]) == len(vm.regs.int)
+//@   ensures vm.fp == old(vm.fp) && vm.st[1] == old(vm.st[1]) && vm.st[2] == old(vm.st[2]) && vm.st[3] == old(vm.st[3])
+//@   ensures len(vm.regs.float) == old(len(vm.regs.float)) && len(vm.regs.string) == old(len(vm.regs.string)) && len(vm.regs.general) == old(len(vm.regs.general))
+
+//@ func (*VM).moreFloatStack
+//@   props C05
+//@   requires vm != nil && len(vm.regs.float) >= 512 && len(vm.regs.float) <= 1<<30
+//@   ensures len(vm.regs.float) == 2*old(len(vm.regs.float)) && int(vm.st[1]) == len(vm.regs.float)
+//@   ensures vm.fp == old(vm.fp) && vm.st[0] == old(vm.st[0]) && vm.st[2] == old(vm.st[2]) && vm.st[3] == old(vm.st[3])
+//@   ensures len(vm.regs.int) == old(len(vm.regs.int)) && len(vm.regs.string) == old(len(vm.regs.string)) && len(vm.regs.general) == old(len(vm.regs.general))
+
+//@ func (*VM).moreStringStack
+//@   props C05
+//@   requires vm != nil && len(vm.regs.string) >= 512 && len(vm.regs.string) <= 1<<30
+//@   ensures len(vm.regs.string) == 2*old(len(vm.regs.string)) && int(vm.st[2]) == len(vm.regs.string)
+//@   ensures vm.fp == old(vm.fp) && vm.st[0] == old(vm.st[0]) && vm.st[1] == old(vm.st[1]) && vm.st[3] == old(vm.st[3])
+//@   ensures len(vm.regs.int) == old(len(vm.regs.int)) && len(vm.regs.float) == old(len(vm.regs.float)) && len(vm.regs.general) == old(len(vm.regs.general))
+
+//@ func (*VM).moreGeneralStack
+//@   props C05
+//@   requires vm != nil && len(vm.regs.general) >= 512 && len(vm.regs.general) <= 1<<30
+//@   ensures len(vm.regs.general) == 2*old(len(vm.regs.general)) && int(vm.st[3]) == len(vm.regs.general)
+//@   ensures vm.fp == old(vm.fp) && vm.st[0] == old(vm.st[0]) && vm.st[1] == old(vm.st[1]) && vm.st[2] == old(vm.st[2])
+//@   ensures len(vm.regs.int) == old(len(vm.regs.int)) && len(vm.regs.float) == old(len(vm.regs.float)) && len(vm.regs.string) == old(len(vm.regs.string))
+
+//@ clause (*VM).run/case OpCallFunc
+//@   props X00 C05
+//@   opt stable VM Function
+//@   requires vm != nil && specRegsOK(vm, vm.fn) && int(vm.pc) < len(vm.fn.Body) && specShiftOK(vm.fn.Body[vm.pc])
+//@   requires int(uint8(a)) < len(vm.fn.Functions) && vm.fn.Functions[uint8(a)] != nil
+//@   requires vm.fn.Functions[uint8(a)].NumReg[0] >= 0 && vm.fn.Functions[uint8(a)].NumReg[1] >= 0 && vm.fn.Functions[uint8(a)].NumReg[2] >= 0 && vm.fn.Functions[uint8(a)].NumReg[3] >= 0
+//@   requires len(vm.regs.int) <= 1<<30 && len(vm.regs.float) <= 1<<30 && len(vm.regs.string) <= 1<<30 && len(vm.regs.general) <= 1<<30
+//@   ensures[C05] specRegsOK(vm, vm.fn)
+
+//@ clause (*VM).run/case OpCallMacro
+//@   props X00 C05
+//@   opt stable VM Function
+//@   requires vm != nil && specRegsOK(vm, vm.fn) && int(vm.pc) < len(vm.fn.Body) && specShiftOK(vm.fn.Body[vm.pc])
+//@   requires len(vm.regs.int) <= 1<<30 && len(vm.regs.float) <= 1<<30 && len(vm.regs.string) <= 1<<30 && len(vm.regs.general) <= 1<<30
+//@   requires int(uint8(a)) < len(vm.fn.Functions) && vm.fn.Functions[uint8(a)] != nil
+//@   requires vm.fn.Functions[uint8(a)].NumReg[0] >= 0 && vm.fn.Functions[uint8(a)].NumReg[1] >= 0 && vm.fn.Functions[uint8(a)].NumReg[2] >= 0 && vm.fn.Functions[uint8(a)].NumReg[3] >= 0
+//@   ensures[C05] specRegsOK(vm, vm.fn)
+
+//@ func create
+//@   props C05
+//@   modifies nothing
+//@   opt allocates yes
+//@   ensures result != nil && len(result.regs.int) == 512 && len(result.regs.float) == 512 && len(result.regs.string) == 512 && len(result.regs.general) == 512
+
+// startGoroutine copies the argument registers of the call into the register
+// file of a new VM; the slices it takes must stay inside the caller's register
+// file whatever the depth of the stack.
+//@ func (*VM).startGoroutine
+//@   props C05
+//@   opt stable VM Function
+//@   panics allowed
+//@   requires vm != nil && specRegsOK(vm, vm.fn) && int(vm.pc)+1 < len(vm.fn.Body) && specShiftOK(vm.fn.Body[vm.pc+1])
+//@   requires len(vm.regs.int) <= 1<<30 && len(vm.regs.float) <= 1<<30 && len(vm.regs.string) <= 1<<30 && len(vm.regs.general) <= 1<<30
+//@   requires vm.fn.Body[vm.pc].Op == OpCallFunc ==> int(uint8(vm.fn.Body[vm.pc].A)) < len(vm.fn.Functions)
+//@   requires vm.fn.Body[vm.pc].Op == OpCallIndirect ==> 1 <= vm.fn.Body[vm.pc].A && int(vm.fn.Body[vm.pc].A) <= int(vm.fn.NumReg[3])
+//@   requires int(vm.fn.Body[vm.pc+1].Op) <= int(vm.fn.NumReg[0]) && int(vm.fn.Body[vm.pc+1].A) <= int(vm.fn.NumReg[1]) && int(vm.fn.Body[vm.pc+1].B) <= int(vm.fn.NumReg[2]) && int(vm.fn.Body[vm.pc+1].C) <= int(vm.fn.NumReg[3])
+
+// NewNativeFunction builds a new descriptor from its arguments; it writes no
+// memory that existed before (assumed, listed: it inspects the function's
+// type through reflect).
+//@ func NewNativeFunction
+//@   props X00
+//@   trusted
+//@   modifies nothing
+//@   opt allocates yes
+//@   ensures result != nil
+
+// OpCallIndirect, compiled callee: same prologue as OpCallFunc. (A native
+// callee goes through callNative, which restores the frame pointers.) Assumed
+// of the data (opt nonnegfields): register counts of compiled functions are
+// not negative (the builder hands out registers 1..127, C20).
+//@ clause (*VM).run/case OpCallIndirect
+//@   props X00 C05
+//@   opt stable VM Function callable
+//@   opt puremethods Interface
+//@   opt track callNative
+//@   panics allowed
+//@   requires vm != nil && specRegsOK(vm, vm.fn) && int(vm.pc) < len(vm.fn.Body) && specShiftOK(vm.fn.Body[vm.pc])
+//@   requires len(vm.regs.int) <= 1<<30 && len(vm.regs.float) <= 1<<30 && len(vm.regs.string) <= 1<<30 && len(vm.regs.general) <= 1<<30
+//@   opt nonnegfields NumReg
+//@   ensures[C05] !called("callNative") && vm.fn != nil ==> int(vm.st[0]) == len(vm.regs.int) && int(vm.st[1]) == len(vm.regs.float) && int(vm.st[2]) == len(vm.regs.string) && int(vm.st[3]) == len(vm.regs.general)
+//@   ensures[C05] !called("callNative") && vm.fn != nil ==> vm.fn.NumReg[0] >= 0 && vm.fn.NumReg[1] >= 0 && vm.fn.NumReg[2] >= 0 && vm.fn.NumReg[3] >= 0
+//@   ensures[C05] !called("callNative") && vm.fn != nil ==> int(vm.fp[0])+int(vm.fn.NumReg[0]) < len(vm.regs.int) && int(vm.fp[1])+int(vm.fn.NumReg[1]) < len(vm.regs.float)
+//@   ensures[C05] !called("callNative") && vm.fn != nil ==> int(vm.fp[2])+int(vm.fn.NumReg[2]) < len(vm.regs.string) && int(vm.fp[3])+int(vm.fn.NumReg[3]) < len(vm.regs.general)
+//@   ensures[C05] !called("callNative") && vm.fn != nil ==> specRegsOK(vm, vm.fn)
+
+// OpTailCall: the frame pointers stay, the callee may need more registers.
+//@ clause (*VM).run/case OpTailCall
+//@   props X00 C05
+//@   opt stable VM Function callable
+//@   opt puremethods Interface
+//@   panics allowed
+//@   requires vm != nil && specRegsOK(vm, vm.fn)
+//@   requires len(vm.regs.int) <= 1<<30 && len(vm.regs.float) <= 1<<30 && len(vm.regs.string) <= 1<<30 && len(vm.regs.general) <= 1<<30
+//@   opt nonnegfields NumReg
+//@   requires a != 0 && a != CurrentFunction ==> int(uint8(b)) < len(vm.fn.Functions) && vm.fn.Functions[uint8(b)] != nil
+//@   ensures[C05] vm.fn != nil ==> specRegsOK(vm, vm.fn)
